@@ -226,7 +226,17 @@ def check(prog, rep, tier):
     tcs = set()
     for n in ast.walk(bgp.node):
         if isinstance(n, ast.Assign) and any(isinstance(t, ast.Name) and t.id == 'type_code' for t in n.targets):
-            tcs.add(prog.try_fold(n.value, bgp.module, bgp.cls))
+            v_ = prog.try_fold(n.value, bgp.module, bgp.cls)
+            if v_ is None and isinstance(n.value, ast.Call) and isinstance(n.value.func, ast.Attribute) and \
+                    isinstance(n.value.func.value, ast.Name) and n.value.func.value.id in ('self', 'cls'):
+                helper = bgp.cls.find_method(n.value.func.attr)
+                if helper is not None:
+                    for r_ in ast.walk(helper.node):
+                        if isinstance(r_, ast.Return) and r_.value is not None and not (
+                                isinstance(r_.value, ast.Constant) and r_.value.value in (None, False)):
+                            tcs.add(prog.try_fold(r_.value, helper.module, helper.cls))
+                    continue
+            tcs.add(v_)
     if tcs and tcs <= {5, 128}:
         rep.ok('R08.a', 'route-refresh-type', file=bgp.file, line=bgp.node.lineno, found=sorted(tcs))
     else:
@@ -604,6 +614,16 @@ def none_is_loud(prog, f):
                 if isinstance(recv, ast.Call):
                     recv = recv.func
                 r = common.resolve_class(prog, recv, g) if not (isinstance(recv, ast.Name) and recv.id in ('cls', 'self')) else g.cls
+                if (r is None or not hasattr(r, 'find_method')) and isinstance(recv, ast.Subscript) and \
+                        isinstance(recv.value, ast.Name):
+                    # table dispatch: CODECS[type_code].construct(...) with CODECS = {code: Class, ...}
+                    for a_ in ast.walk(g.node):
+                        if isinstance(a_, ast.Assign) and isinstance(a_.value, ast.Dict) and any(
+                                isinstance(t_, ast.Name) and t_.id == recv.value.id for t_ in a_.targets):
+                            for dv in a_.value.values:
+                                rc = common.resolve_class(prog, dv, g)
+                                if rc is not None and hasattr(rc, 'find_method') and rc.find_method(f.name) is f:
+                                    r = rc
                 if r is None or not hasattr(r, 'find_method') or r.find_method(f.name) is not f:
                     continue
                 sites += 1
